@@ -139,4 +139,40 @@ PLANS = {
                 'including the mixed identifiers C06 excludes; sem.next: NextMajor/Minor/Patch on 11^3 boundary cores and every universe element (panic iff component = 2^64-1, plain release strictly above)',
         'assumptions': COMMON_ASSUMPTIONS,
     },
+    'C04': {
+        'mc': [{'module': 'MC_Size', 'what': 'BigDec homomorphism; Shorten exact and maximal; renderings parse back under the text grammar; unit products; separators never change the value'}],
+        'drivers': [{'name': 'c04', 'shards': 8, 'per': 8000, 'tiers': {'thorough': {'shards': 16}}}],
+        'codes': ['C04.'],
+        'rule': 'size.marshal: one event per (size, switch configuration): MarshalText/MarshalJSON/String/PrettyString outputs, UnmarshalText/UnmarshalJSON/struct/slice/map/DefaultParser '
+                'results; demands: every path returns the size AND the output means the size under the SPECIFIED grammar. Values: all 64 trailing-zero counts, 20 decimal lengths, '
+                'neighbourhoods of 1000^k, 1024^k, 2^k, 2^64-1, all n < 2^12 (thorough 2^20), seeded random; x 8 switch configurations',
+        'assumptions': COMMON_ASSUMPTIONS,
+    },
+    'C13': {
+        'mc': [{'module': 'MC_Size', 'what': 'Shorten exact and maximal, grouping in threes from the right, on odd x 2^k for every k and boundary values'}],
+        'drivers': [{'name': 'c13', 'shards': 8, 'per': 8000, 'tiers': {'thorough': {'shards': 16}}}],
+        'codes': ['C13.'],
+        'rule': 'size.marshal events judged against Shorten / FmtSize (BigDec): Shorten value and unit, exact product, String, PrettyString, PrettyHTML, DefaultFormatter(FormatHTML); '
+                'all n < 2^14 (thorough 2^20) + strata + seeded random',
+        'assumptions': COMMON_ASSUMPTIONS,
+    },
+    'C08': {
+        'mc': [{'module': 'MC_Size', 'what': 'for every unit: accepted <=> value x multiplier < 2^64, zero-only units, separators never change the value, RuleDisableUnit'}],
+        'drivers': [{'name': 'c08', 'shards': 8, 'per': 20000}],
+        'codes': ['C08.'],
+        'rule': 'size.parse (text mode): for each of the 18 units (+ unknown units) every value within +-60 (thorough +-1000) of floor((2^64-1)/mult) and of 0, powers, random, 21-27 digit numbers; '
+                'grammar-generated texts with every separator placement; size.new over 18 numeric kinds/derived types with boundary, negative, fractional, NaN, Inf values (class computed with math/big); '
+                'size.bytes over 18 kinds at type maxima and float mantissa boundaries; constraint.kind tables',
+        'assumptions': COMMON_ASSUMPTIONS + ['the class (integer / negative / fraction / NaN / Inf) and digits of a Go numeric argument are computed by the harness with math/big'],
+    },
+    'C12': {
+        'mc': [{'module': 'MC_C12', 'what': 'all objects of <= 3 (thorough 4) members from 11 member kinds in every order x 8 rules x 5 limits: Ref is order independent; the key-loop model (Impl) refines Ref; limit rule',
+                'tiers': {'quick': {'env': {'MC_MEMBERS': '3'}}, 'thorough': {'env': {'MC_MEMBERS': '4'}}}}],
+        'drivers': [{'name': 'c12', 'shards': 8, 'per': 6000}],
+        'codes': ['C12.'],
+        'rule': 'size.parse (JSON mode) on generated documents: scalars, strings with escapes, every sequence of <= 2 members and ~19x19x28x2 sequences of 3 members, random longer objects, '
+                'whitespace styles, every truncation and 16 trailing byte strings of 6 documents, member counts around MaxObjectKeys with value/unit first, last, middle; x 12 JSON rule subsets x MaxObjectKeys in {0,1,2,3,16}; '
+                'the abstract document of every input is derived from the bytes with encoding/json (json.Valid + token stream)',
+        'assumptions': COMMON_ASSUMPTIONS + ['the abstract JSON document and well-formedness of an input are derived by the harness with encoding/json (json.Valid, Decoder tokens), as the property prescribes'],
+    },
 }
